@@ -19,6 +19,10 @@ FEATS = [
     dict(p_under=0.4, p_nest=0.7, nframes=(3, 8), p_aux=0.3, naux=(1, 3), p_condaux=0.6, p_stop_bid_mid=0.4, ngo=(0, 2)),
     dict(p_under=0.3, p_nest=0.7, nframes=(4, 8), naux=(1, 2), p_condaux=0.8, p_let=0.15, ngo=(0, 1), p_uncond_go=0.0,
          ticks=(12, 24), nplan=(4, 9)),
+    # several conditional auxes along one deep outline, slow to complete: nested suspensions (an upper aux starting and
+    # completing while a lower one is still running)
+    dict(nframers=(1, 1), p_under=0.2, p_nest=0.9, nframes=(4, 7), naux=(3, 4), p_condaux=0.95, ngo=(0, 1), p_uncond_go=0.0,
+         p_clock_need=0.0, ticks=(14, 26), nplan=(6, 12)),
 ]
 
 
@@ -26,7 +30,7 @@ def worker(ctx, job):
     from vf.flo import runner, monitors
     for seed, fi in job["items"]:
         rng = random.Random(seed)
-        prog = gen.gen_program(rng, gen.pickfeat(FEATS, fi))
+        prog = gen.nested_condaux_program(rng) if fi % len(FEATS) == 3 else gen.gen_program(rng, gen.pickfeat(FEATS, fi))
         text = P.render(prog)
         res = runner.run_text(text, maxticks=prog["ticks"] + 12, post=True)
         if not res.built:
@@ -56,3 +60,4 @@ def run(ctx):
     ctx.floor("resumptions", 20)
     ctx.floor("depth3_outline", 50)
     ctx.floor("stopped_checked", 100)
+    ctx.floor("nested_running_conditional_auxes", 300)
